@@ -65,6 +65,14 @@ def gen_queries(rng, s):
                 a = vt[i] + (vt[i + 1] - vt[i]) * Fraction(1, 4)
                 b = vt[i] + (vt[i + 1] - vt[i]) * Fraction(3, 4)
             qs.append({"kind": kind, "v": v, "j": j, "m": m, "a": str(a), "b": str(b)})
+    # strictly between two history knots of every variable that has them (the variable's own
+    # interpolation method applies to its history as well)
+    for m, h in enumerate(s.get("history", [])):
+        for v, hv in h.items():
+            if len(hv["times"]) >= 2 and v in coll:
+                a, b = Fraction(hv["times"][-2]), Fraction(hv["times"][-1])
+                qs.append({"kind": "state_at", "v": v, "j": coll.index(v), "m": m, "t": str(a + (b - a) * Fraction(rng.choice([1, 2, 3]), 4)),
+                           "scaled": False, "extrapolate": rng.random() < 0.5})
     ders = ["der(%s)" % x for x in s["states"]]
     e = tr.lin_expr(rng, coll + ders + s["constant_inputs"], 3, allow_nonlinear=True)
     qs.append({"kind": "map_path", "m": rng.randrange(E), "expr": e})
